@@ -52,6 +52,15 @@ def run_bounded(prop, tier, seed, repo, timeout):
     return res
 
 
+def run_sweep(targets, n, seed, repo, timeout=1800):
+    env = dict(os.environ, PYTHONPATH=repo + os.pathsep + VERIF, PYTHONDONTWRITEBYTECODE='1', PYTHONHASHSEED='0')
+    r = subprocess.run([PY_PENMAN, '-m', 'vlib.pyvc.sweep', json.dumps({'targets': targets, 'n': n, 'seed': seed})],
+                       cwd=VERIF, env=env, capture_output=True, text=True, timeout=timeout)
+    if r.returncode != 0 or not r.stdout.strip():
+        raise RuntimeError('contract sweep failed (exit %s): %s' % (r.returncode, r.stderr[-1500:]))
+    return json.loads(r.stdout.strip().splitlines()[-1])
+
+
 def replay_bounded(payload, repo):
     env = dict(os.environ, PYTHONPATH=repo + os.pathsep + VERIF, VERIF_REPO=repo,
                PYTHONDONTWRITEBYTECODE='1')
@@ -112,6 +121,15 @@ def do_replay(prop, path, repo):
             return 0
         print('REPLAY property=%s: reproduced: %s' % (prop, r['detail']))
         return 1
+    if payload.get('kind') == 'sweep':
+        r = run_sweep([payload['target']], payload['n'], payload['seed'], repo)
+        hit = [f for f in r.get('failures', []) if f['clause'] == payload['clause']]
+        print(json.dumps(hit[:1], indent=1)[:3000])
+        if hit:
+            print('REPLAY property=%s: reproduced: %s' % (prop, hit[0]['detail']))
+            return 1
+        print('REPLAY property=%s: the contract clause no longer fails on the generated inputs' % prop)
+        return 0
     from vlib.pyvc import run as pv
     return pv.replay(prop, payload, repo)
 
@@ -136,6 +154,19 @@ def do_check(prop, tier, seed, a, t0):
         undecided.extend(proof['undecided'])
         for fid, n in proof.get('known_seen', {}).items():
             known_seen[fid] = known_seen.get(fid, 0) + n
+
+    # ---- native contract sweep (dynamic, bounded): every contract of the unit is also executed on
+    # the real functions; finds concrete failing inputs where the solvers leave an obligation open, and
+    # cross-checks the verifier on the unchanged tree
+    sweep = None
+    if proof is not None and not a.no_bounded:
+        targets = [k for k in spec['obligations'] if not k.startswith('lemma:')]
+        sweep = run_sweep(targets, 40 if tier == 'quick' else 600, seed, a.repo)
+        for f in sweep.get('failures', []):
+            violations.append({'name': '%s:%s' % (f['target'].split(':')[1], f['clause']), 'kind': 'sweep',
+                               'target': f['target'], 'clause': f['clause'], 'seed': seed,
+                               'n': 40 if tier == 'quick' else 600, 'args': f.get('args'), 'model': f.get('model'),
+                               'detail': 'contract executed on the real function: %s' % f['detail'], 'suffix': ''})
 
     # ---- bounded stand-in -----------------------------------------------------
     bounded = None
@@ -192,7 +223,9 @@ def do_check(prop, tier, seed, a, t0):
                         'replay_cmd': './check %s --replay <this file>' % prop})
         path = write_replay(prop, v['name'], payload)
         line = 'VIOLATION property=%s replay=%s' % (prop, path)
-        info = ' obligation=%s' % v['name'] if v.get('kind') == 'obligation' else ' check=%s' % v['name']
+        info = ' obligation=%s' % v['name'] if v.get('kind') in ('obligation', 'sweep') else ' check=%s' % v['name']
+        if v.get('kind') == 'sweep':
+            info += ' check=contract-sweep'
         print(line + info + ((' ' + v['suffix']) if v.get('suffix') else ''))
         print('  detail: %s' % str(v.get('detail'))[:300])
     for u in undecided:
@@ -201,7 +234,7 @@ def do_check(prop, tier, seed, a, t0):
     if not a.no_evidence:
         from vlib import evidence
         evidence.write(prop, tier, seed, spec, proof, bounded, nviol, known_seen, undecided,
-                       time.time() - t0, head, dirty)
+                       time.time() - t0, head, dirty, sweep=sweep)
     if nviol:
         return 1
     if undecided:
